@@ -95,7 +95,7 @@ def one(job):
             except Exception as e:  # noqa
                 return {"kind": kind, "seed": seed, "skip": "gen:" + type(e).__name__}
         else:
-            fmt = {"colr1": "glyf_colr_1", "colr0": "glyf_colr_0", "picosvg": "picosvg"}[kind]
+            fmt = {"colr1": "glyf_colr_1", "colr0": "glyf_colr_0", "picosvg": "picosvg", "cffcolr0": "cff_colr_0", "cff2colr1": "cff2_colr_1"}[kind]
             ov = {"keep_glyph_names": True}
             if opts.get("bitmaps"):
                 # CBDT can only represent small pixel metrics; use Noto-like metrics so that --bitmaps is representable (C14 covers rejection)
@@ -316,7 +316,8 @@ def suite_copy_svg_model(ctx, res, n):
 
 
 def suite(ctx, res, n):
-    kinds = ["colr1", "third-party", "colr0", "picosvg", "third-party", "colr1"]
+    # CFF-flavoured inputs: glyph names are paired with outlines through the CFF charset, which the re-ordering done for the SVG table must carry along
+    kinds = ["colr1", "third-party", "colr0", "cffcolr0", "picosvg", "third-party", "cff2colr1", "colr1"]
     jobs = []
     for k in range(n):
         kind = kinds[k % len(kinds)]
